@@ -68,7 +68,16 @@ example : Spec.Ecdsa.Accepts pkX1 sigRR msgR := by
 
 /-- BIP340: `btc.SchnorrVerify` (model of the current code) returns exactly BIP340 verification, for
     all byte strings and every hash function: 32-byte liftable key, 64-byte signature, r < p, s < n,
-    R = s·G − e·P finite with even y and x(R) = r. -/
+    R = s·G − e·P finite with even y and x(R) = r.
+    Assumption carried by the MODEL (not by this theorem): the Go code hands `n − e` to `XYZ.ECmult` with
+    e the UNREDUCED 256-bit challenge, so for e > n (probability ≈ 2^-128 per verification, no SHA-256
+    input known) the scalar is a NEGATIVE big.Int; `Sig.ecmult` takes an `Int` and says the code computes
+    ((n − e) mod n)·P + s·G. That cannot be exercised through `btc.SchnorrVerify` itself
+    (`SchnorrsigChallenge` is a plain function over SHA-256); the harness exercises it on the real
+    `XYZ.ECmult` directly (op `ecmneg`) and through SchnorrVerify's own steps with an injected challenge
+    (op `schnorre`, compared with this model and spec at the constant hash `H = fun _ => e`, to which the
+    theorem applies as to any other `H`). That the real SchnorrVerify composes these steps in the same
+    way when e > n is assumed. -/
 theorem schnorr_accept_iff (H : Hash) (pk sig msg : Bytes) :
     Sig.schnorrVerify H pk sig msg = Spec.Bip340.verify H pk sig msg :=
   schnorr_eq H pk sig msg
@@ -266,10 +275,15 @@ theorem hmac_matches (H : Hash) (key data : Bytes) (hk : key.length ≠ 64) :
 
 example : zero32.length ≠ 64 := by decide
 
-/-- `btc.RFC6979_Nonce(prv, msg, nil, nil, counter)` is the (counter+1)-th candidate of RFC 6979 §3.2
-    (HMAC_DRBG steps b–h with x = prv, h1 = msg), as a byte-level identity, for 32-byte inputs and any
-    hash with 32-byte output. (RFC 6979 takes h1 = bits2octets(hash) = hash mod n; gocoin — like
-    libsecp256k1 — feeds the 32 hash bytes unreduced, so for int(msg) ≥ n the two differ.) -/
+/-- `btc.RFC6979_Nonce(prv, msg, nil, nil, counter)` is the (counter+1)-th candidate of the
+    LIBSECP256K1 VARIANT of RFC 6979 §3.2 (HMAC_DRBG steps b–h with x = prv and h1 = the 32 message-hash
+    bytes AS THEY ARE), as a byte-level identity, for 32-byte inputs and any hash with 32-byte output.
+    This is NOT RFC 6979 to the letter: the RFC takes h1 = bits2octets(hash) = hash mod n; gocoin — like
+    libsecp256k1 — feeds the hash bytes unreduced, so the two coincide exactly when int(msg) < n and
+    differ when int(msg) ≥ n. `Spec.Rfc6979.candidate` is applied here to the unreduced `msg`, i.e. the
+    theorem states the variant. External vectors (lib/btc/hash_test.go, libsecp256k1's) exist only for
+    hashes < n; for hashes ≥ n the harness checks code = model = reference-of-the-variant and records
+    that the strict-RFC nonce would be different (corpus class `hash-ge-n`). -/
 theorem rfc6979_matches (H : Hash) (hH : ∀ b, (H b).length = 32) (prv msg : Bytes)
     (hp : prv.length = 32) (hm : msg.length = 32) (counter : Nat) :
     Sig.rfc6979Nonce H prv msg counter = Spec.Rfc6979.candidate H prv msg counter :=
